@@ -71,6 +71,9 @@ def drive(body, strategy, *, rec: Recorder, findings: Findings, seed: int, max_e
             if old is None or size < old[0]:
                 failures[v.sig] = (size, v)
             st["failed_keys"].add(canon(to_case(value) if to_case else value))
+            if getattr(v, "expensive", False):
+                # e.g. a case that only ends through the CPU watchdog: do not pay for it hundreds of times while shrinking
+                st["after_fail"] = shrink_budget + 1
             raise v
 
         # very expensive cases (fresh interpreters) are reported unshrunk: the generated case is small
